@@ -112,6 +112,9 @@ func (g *FG) InCycle(x *GNode) bool {
 // gen(f') at some level of every static call chain leading to it: locally, or
 // (for unexported declarations whose value is never taken) at every call site,
 // recursively; literals that run in place continue at their creation site.
+// dominatedUpExempt: set by a rule for the duration of its DominatedUp queries (the checker runs one pass at a time).
+var dominatedUpExempt func(ix *PkgIndex, call *ast.CallExpr) bool
+
 func (ix *PkgIndex) DominatedUp(f *FuncInfo, n ast.Node, gen func(fi *FuncInfo) func(*GEdge) bool, depth int) (bool, string) {
 	g := ix.FG(f)
 	x := g.NodeOf(n)
@@ -145,6 +148,9 @@ func (ix *PkgIndex) DominatedUp(f *FuncInfo, n ast.Node, gen func(fi *FuncInfo) 
 		return false, "not guarded in " + where + ": no static call sites"
 	}
 	for _, cs := range sites {
+		if dominatedUpExempt != nil && dominatedUpExempt(ix, cs.Call) {
+			continue // a call site the obligation does not apply to (named by the rule that set the hook)
+		}
 		if ok, why := ix.DominatedUp(cs.In, cs.Call, gen, depth+1); !ok {
 			return false, why + " ← via " + f.Name
 		}
